@@ -271,6 +271,17 @@ theorem pageItem_total (data : Bytes) (hd : data.length ≥ 8192) (upper : Nat) 
       simp only [ok_bind]
       exact parseHeapTuple_total _
 
+/-- ParsePage's guarded loop returns on every page of at least 8192 bytes, whatever is already claimed -/
+theorem pageLoop_total (data : Bytes) (hd : data.length ≥ 8192) (upper : Nat) (items claimed : List ItemID) :
+    ∃ ts, pageLoop data upper items claimed = .ok ts :=
+  pageLoop_total_of data upper (pageItem_total data hd upper) items claimed
+
+theorem pageItemG_total (data : Bytes) (hd : data.length ≥ 8192) (upper : Nat) (claimed : List ItemID) (it : ItemID) :
+    ∃ r, pageItemG data upper claimed it = .ok r := by
+  cases ho : overlapsAny claimed it with
+  | true => exact ⟨none, pageItemG_of_overlaps _ _ _ _ ho⟩
+  | false => rw [pageItemG_of_not_overlaps _ _ _ _ ho]; exact pageItem_total data hd upper it
+
 theorem parsePage_total (data : Bytes) : ∃ r, parsePage data = .ok r := by
   unfold parsePage
   by_cases hl : data.length < 8192
@@ -282,7 +293,7 @@ theorem parsePage_total (data : Bytes) : ∃ r, parsePage data = .ok r := by
     · exact ⟨_, rfl⟩
     · obtain ⟨items, hi⟩ := parseItemsLoop_total data (rd 2 (data.drop 12)) (itemCount (rd 2 (data.drop 12))) 24
       simp only [parseItems, hi, ok_bind]
-      exact collectM_total _ _ (pageItem_total data (by omega) _)
+      exact pageLoop_total_of data _ (pageItem_total data (by omega) _) items []
 
 theorem readTuplesFrom_total (data : Bytes) (vis : Bool) (n off : Nat) : ∃ r, readTuplesFrom data vis n off = .ok r := by
   induction n generalizing off with
